@@ -11,6 +11,7 @@ import (
 	"math/rand"
 	"sort"
 	"testing"
+	"time"
 
 	"verifharness/kit"
 
@@ -480,13 +481,27 @@ func (s *script) reset() {
 	it.Release()
 }
 
+var stuck bool
+
 func runScript(r *kit.Run, rng *rand.Rand, nops int, id int) {
 	caps := [2]int{[]int{0, 1, 16, 1024, 64 * 1024}[rng.Intn(5)], []int{0, 1, 4, 64}[rng.Intn(4)]}
 	s := &script{r: r, rng: rng, db: overlaydb.NewMemDB(caps[0], caps[1]), mod: &model{m: map[string][]byte{}}, cap: caps}
 	// operation mix differs per script: write heavy / delete heavy / read heavy
 	wPut, wDel := 20+rng.Intn(40), 5+rng.Intn(30)
-	if p := kit.Catch(func() { s.run(nops, wPut, wDel) }); p != nil {
-		s.fail("memdb-panic", fmt.Sprintf("panic in MemDB: %v", p))
+	// the script runs in its own goroutine under a very generous watchdog (a script normally takes
+	// milliseconds): an operation of an in-memory buffer that does not return within two minutes
+	// never answers, which no map does
+	done := make(chan interface{}, 1)
+	go func() { done <- kit.Catch(func() { s.run(nops, wPut, wDel) }) }()
+	select {
+	case p := <-done:
+		if p != nil {
+			s.fail("memdb-panic", fmt.Sprintf("panic in MemDB: %v", p))
+		}
+	case <-time.After(120 * time.Second):
+		s.fail("memdb-operation-does-not-return", fmt.Sprintf("an operation of script %d did not return within 120 s (last logged op #%d)", id, len(s.trace)))
+		stuck = true
+		return
 	}
 	r.Eval(1)
 	live, dead := 0, 0
@@ -555,7 +570,7 @@ func TestC09(t *testing.T) {
 			ops = 3000
 		}
 		runScript(r, rng, ops, i)
-		if r.Violations() > 10 {
+		if r.Violations() > 10 || stuck {
 			break
 		}
 	}
